@@ -97,8 +97,8 @@ Definition rebuild (v : variant) (ops : list fop) (i m : nat) : option meta :=
   match nth_state ls i, nth_state ls m with
   | Some li, Some lm =>
     let start := match i with
-                 | O => mkMeta [] [] (mt_disk lm) 0%N
-                 | _ => restore v (mt_disk lm) 0%N (take_snapshot li)
+                 | O => mkMeta empty_core (mt_disk lm) 0%N
+                 | _ => restore v (mt_disk lm) 0%N (take_snapshot (mt_core li))
                  end in
     match run v true (N.of_nat i + 1)%N start (skipn i ops) with
     | Some p => Some (finish (N.of_nat (length ops)) p)
@@ -132,7 +132,20 @@ Fixpoint check_restarts (v : variant) (ops : list fop) (rs : list (nat * nat * o
     end
   end.
 
+(* every observed operation had passed the leader's real precondition check: the model's must agree *)
+Fixpoint check_pre (v : variant) (idx : N) (m : meta) (ops : list fop) (pos : nat) : list (nat * nat) :=
+  match ops with
+  | [] => []
+  | o :: r => if pre (mt_core m) o
+              then match apply v false idx m o with
+                   | Some m' => check_pre v (idx + 1) m' r (S pos)
+                   | None => []
+                   end
+              else [(pos, 8%nat)]
+  end.
+
 Definition check_case (v : variant) (c : fcase) : list (nat * nat) :=
+  check_pre v 1%N empty_meta (fc_ops c) 1%nat ++
   check_live (live_states v 1%N empty_meta (fc_ops c)) (fc_obs c) 1%nat ++ check_restarts v (fc_ops c) (fc_restarts c) 0.
 
 Fixpoint fcases_mismatches (v : variant) (cs : list fcase) (i : nat) : list (nat * (nat * nat)) :=
